@@ -46,8 +46,7 @@ def set_input_divide_by_period(holder, period, array) -> None:
 
     To read more about ``set_input`` attributes, check the `documentation <https://openfisca.org/doc/coding-the-legislation/35_periods.html#set-input-automatically-process-variable-inputs-defined-for-periods-not-matching-the-definition-period>`_.
     """
-    if not isinstance(array, numpy.ndarray):
-        array = numpy.array(array)
+    array = holder._to_array(array)
     period_size = period.size
     period_unit = period.unit
 
